@@ -23,7 +23,7 @@ from .sym import (SInt, SBool, Unsupported, ConcretizeError, fresh_int, fresh_bo
                   s_and, s_or, s_not, s_ite, s_min, s_max, s_implies, zb, _z, mk_bool, is_sym,
                   range_constraints, same_value, _counter, reset_atoms, QForall, SQuant)
 from .values import (CUR, VBytearray, VBytes, SSeq, SIter, SBits, SRepeat, Obj, TupObj,
-                     CountedList, OpaqueSeq, OpaqueElem, OpaqueIter)
+                     CountedList, OpaqueSeq, OpaqueElem, OpaqueIter, FieldBuf)
 
 PKG = 'segno'
 
@@ -288,6 +288,15 @@ class Interp:
         for c in range_constraints(v):
             self.add_pc(c)
         return v
+
+    def concretize(self, x, lo, hi):
+        """fork on the value of a symbolic integer known to lie in a small range"""
+        if not isinstance(x, SInt):
+            return x
+        for c in range(lo, hi + 1):
+            if self.decide(x == c):
+                return c
+        raise Unsupported('symbolic value outside %d..%d' % (lo, hi))
 
     def abbrev(self, x, name='t'):
         """fresh symbol constrained to equal x (keeps later terms small)"""
@@ -1897,6 +1906,8 @@ def _build_models(I):
     def m_len(x):
         if isinstance(x, (VBytearray, TupObj)):
             return len(x.items)
+        if isinstance(x, FieldBuf):
+            return x.bitlen
         if isinstance(x, (SSeq, SBits, OpaqueSeq)):
             return x.length
         if isinstance(x, SRepeat):
